@@ -34,7 +34,7 @@ func defaultGenCfg(client int) *genCfg {
 		keys:    []string{"k1", "k2", "k3"},
 		freeIDs: []string{"a", "b", "c"},
 		jsonIDs: []string{"j1"},
-		featIDs: []string{"g1"},
+		featIDs: []string{"g1", "p1"}, // g1: a Feature; p1: a point in its several spellings (both edited with JSET/JDEL)
 		fields:  []string{"f1", "f2", "speed"},
 		exVals:  []string{"0.2", "0.5", "1", "2", "5", "100"},
 		wRead:   10, wWrite: 10, wMulti: 3, wJSON: 4, wExpire: 3,
@@ -203,6 +203,24 @@ func (g *genCfg) setCmdFresh(r *rand.Rand, key, id string) Cmd {
 	switch {
 	case contains(g.jsonIDs, id):
 		args = append(args, "STRING", fmt.Sprintf(`{"a":%d,"b":{"c":"s%d"}}`, g.uniq(), g.uniq()))
+	case contains(g.featIDs, id) && strings.HasPrefix(id, "p"):
+		// a point: flat or with a height (0 is a height too), typed in or as GeoJSON, bare or with
+		// a member of its own
+		z := []string{"0", "0", "7", "250"}[r.Intn(4)]
+		switch r.Intn(6) {
+		case 0:
+			args = append(args, "POINT", g.lat(r), g.lon(r))
+		case 1:
+			args = append(args, "POINT", g.lat(r), g.lon(r), z)
+		case 2:
+			args = append(args, "OBJECT", fmt.Sprintf(`{"type":"Point","coordinates":[%s,%s]}`, g.lon(r), g.lat(r)))
+		case 3:
+			args = append(args, "OBJECT", fmt.Sprintf(`{"type":"Point","coordinates":[%s,%s,%s]}`, g.lon(r), g.lat(r), z))
+		case 4:
+			args = append(args, "OBJECT", fmt.Sprintf(`{"type":"Point","coordinates":[%s,%s],"tag":"t%d"}`, g.lon(r), g.lat(r), g.uniq()))
+		default:
+			args = append(args, "OBJECT", fmt.Sprintf(`{"type":"Point","coordinates":[%s,%s,%s],"tag":"t%d"}`, g.lon(r), g.lat(r), z, g.uniq()))
+		}
 	case contains(g.featIDs, id):
 		args = append(args, "OBJECT", g.feature(r))
 	default:
@@ -210,7 +228,7 @@ func (g *genCfg) setCmdFresh(r *rand.Rand, key, id string) Cmd {
 		case 0, 1:
 			args = append(args, "POINT", g.lat(r), g.lon(r))
 		case 2:
-			args = append(args, "POINT", g.lat(r), g.lon(r), strconv.Itoa(1+r.Intn(900)))
+			args = append(args, "POINT", g.lat(r), g.lon(r), strconv.Itoa((1+r.Intn(900))*r.Intn(4)/3)) // a height, sometimes 0
 		case 3:
 			lat, _ := strconv.ParseFloat(g.lat(r), 64)
 			lon, _ := strconv.ParseFloat(g.lon(r), 64)
@@ -300,7 +318,7 @@ func (g *genCfg) readCmd(r *rand.Rand) Cmd {
 			return Cmd{Args: []string{"JGET", key, pick(r, g.jsonIDs), []string{"a", "b.c", "b", "zz", "new"}[r.Intn(5)]}}
 		}
 		if len(g.featIDs) > 0 {
-			return Cmd{Args: []string{"JGET", key, pick(r, g.featIDs), []string{"properties.name", "properties.speed", "properties.tag", "type"}[r.Intn(4)]}}
+			return Cmd{Args: []string{"JGET", key, pick(r, g.featIDs), []string{"properties.name", "properties.speed", "properties.tag", "type", "tag", "name", "coordinates"}[r.Intn(7)]}}
 		}
 		return Cmd{Args: []string{"GET", key, id}}
 	}
@@ -375,6 +393,9 @@ func (g *genCfg) jsonCmd(r *rand.Rand) Cmd {
 	if len(g.featIDs) > 0 && r.Intn(3) == 0 {
 		id := pick(r, g.featIDs)
 		path := []string{"properties.name", "properties.speed", "properties.tag"}[r.Intn(3)]
+		if strings.HasPrefix(id, "p") {
+			path = []string{"tag", "name", "properties.name"}[r.Intn(3)]
+		}
 		if r.Intn(3) == 0 {
 			return Cmd{Args: []string{"JDEL", key, id, path}}
 		}
@@ -405,7 +426,17 @@ func (g *genCfg) badCmd(r *rand.Rand) Cmd {
 	key := pick(r, g.keys)
 	id := g.anyID(r)
 	var a []string
-	switch r.Intn(14) {
+	switch r.Intn(18) {
+	case 14:
+		// searches that get as far as their area and fail there, after every earlier clause
+		// (filters that run scripts included) has been set up
+		a = []string{"NEARBY", key, "WHEREEVAL", "return true", "0", "POINT", "abc", "-115"}
+	case 15:
+		a = []string{"WITHIN", key, "WHEREEVAL", "return FIELDS.speed ~= nil", "0", "IDS", "BOUNDS", "1", "2", "3", "x"}
+	case 16:
+		a = []string{"INTERSECTS", key, "WHERE", "speed", "0", "10", "WHEREEVAL", "return true", "0", "GET", "nokey", "noid"}
+	case 17:
+		a = []string{"WITHIN", key, "WHEREEVAL", "return true", "0", "COUNT", "OBJECT", `{"type":"Polygon","coordinates":[[[1`}
 	case 0:
 		a = []string{"SET", key, id, "POINT", "abc", "10"}
 	case 1:
